@@ -280,9 +280,82 @@ fn int_inverse(k: u64) -> (u64, u64) {
     (p + 1, k - (p as u128 * (p as u128 + 1) / 2) as u64)
 }
 
+/// Repeated taxon labels (legal through `new`, `set_taxa` and the strict Phylip parser, which documents that row labels need
+/// not be distinct): for every by-name operation a label names its FIRST position, and the pair-keyed map — whose keys are
+/// labels — must agree with the pairwise reads through those labels; identical labels read zero.
+fn check_repeated_labels(n: usize, rng: &mut Rng, q: &mut Q, rep: &mut Report) {
+    let k = (n - 1 - rng.below(2.min(n - 1))).max(1);
+    let mut t: Vec<String> = (0..n).map(|i| format!("t{}", if i < k { i } else { rng.below(k) })).collect();
+    rng.shuffle(&mut t);
+    let cells: Vec<f64> = (0..tri(n)).map(|c| (c + 1) as f64).collect();
+    let via_set_taxa = rng.chance(1, 2);
+    let mut script;
+    let m = if via_set_taxa {
+        let t0 = taxa(n);
+        let mut m = DistanceMatrix::new(t0.clone(), &cells);
+        script = format!("mx.new\t{}\t{}", enc_taxa(&t0), enc_cells(&cells));
+        q.push("", script.clone(), "ok".into());
+        let cmd = format!("mx.settaxa\t{}", enc_taxa(&t));
+        let r = m.set_taxa(t.clone());
+        script.push('\n');
+        script.push_str(&cmd);
+        q.push(&script, cmd, if r.is_ok() { "ok".into() } else { "err".into() });
+        if r.is_err() {
+            rep.oracle("set-taxa", "refused", &script, &format!("{r:?}"));
+            return;
+        }
+        m
+    } else {
+        script = format!("mx.new\t{}\t{}", enc_taxa(&t), enc_cells(&cells));
+        q.push("", script.clone(), "ok".into());
+        DistanceMatrix::new(t.clone(), &cells)
+    };
+    rep.case(&script, true);
+    rep.count("repeated_label_matrices");
+    let mut distinct = t.clone();
+    distinct.sort();
+    distinct.dedup();
+    match guarded(AssertUnwindSafe(|| m.to_map())) {
+        Err(_) => rep.oracle("no-panic", "to_map", &format!("{script}\nmx\ttomapd"), "to_map panicked"),
+        Ok(map) => {
+            let mut ents: Vec<String> = map.iter().map(|((a, b), v)| format!("{},{}=ok {}", hex(a), hex(b), *v as i64)).collect();
+            ents.sort();
+            q.push(&script, "mx\ttomapd".into(), format!("ok {}", ents.join(" ")));
+            if map.len() != distinct.len() * distinct.len() {
+                rep.oracle("to-map", "not-all-ordered-pairs", &format!("{script}\nmx\ttomapd"), &format!("{} entries for {} distinct labels", map.len(), distinct.len()));
+            }
+            for ((a, b), v) in map.iter() {
+                let g = res_get(&m, a, b);
+                if g != format!("ok {}", *v as i64) {
+                    rep.oracle("to-map", "disagrees-with-get", &format!("{script}\nmx\ttomapd\nmx\tget\t{}\t{}", hex(a), hex(b)), &format!("map {a},{b}={v}; get: {g}"));
+                }
+                if a == b && *v != 0.0 {
+                    rep.oracle("to-map", "identical-taxa-not-zero", &format!("{script}\nmx\ttomapd"), &format!("{a},{b}={v}"));
+                }
+            }
+        }
+    }
+    // reads by label: the first position carrying the label answers, in either order
+    for a in distinct.iter() {
+        for b in distinct.iter() {
+            let g = res_get(&m, a, b);
+            q.push(&script, format!("mx\tget\t{}\t{}", hex(a), hex(b)), g.clone());
+            let (i, j) = (t.iter().position(|x| x == a).unwrap(), t.iter().position(|x| x == b).unwrap());
+            let want = if i == j { 0 } else { let (hi, lo) = (i.max(j), i.min(j)); (hi * (hi - 1) / 2 + lo + 1) as i64 };
+            if g != format!("ok {want}") {
+                rep.oracle("get", "repeated-label-not-first-position", &format!("{script}\nmx\tget\t{}\t{}", hex(a), hex(b)), &format!("{g} expected {want}"));
+            }
+        }
+    }
+}
+
 pub fn run(thorough: bool, seed: u64, driver: &str, rep: &mut Report) {
     let mut rng = Rng::new(seed);
     let mut q = Q { reqs: vec![], expect: vec![], ctx: vec![] };
+    for i in 0..(if thorough { 3000 } else { 300 }) {
+        check_repeated_labels(2 + i % 7, &mut rng, &mut q, rep);
+    }
+    q.flush(driver, rep);
     let max_n = if thorough { 60 } else { 40 };
     let set_n = if thorough { 16 } else { 10 };
     for n in 0..=max_n {
